@@ -60,6 +60,7 @@ type WindowOpts struct {
 	ForceInstant bool
 	MaxSteps     int // default 35 (+ tail up to 130)
 	NoTail       bool
+	Long         bool // rarely up to 1200 steps
 }
 
 // Base is the nominal beginning of generated data.
@@ -95,6 +96,9 @@ func DrawWindow(t *rapid.T, o WindowOpts) Window {
 	n := ir(t, 1, maxSteps, "nsteps")
 	if !o.NoTail && chance(t, 1, 12, "tail") {
 		n = ir(t, 36, 130, "nsteps_tail")
+		if o.Long && chance(t, 1, 10, "longtail") {
+			n = ir(t, 131, 1200, "nsteps_long")
+		}
 	}
 	end := start + int64(n-1)*step
 	if chance(t, 1, 4, "endslack") {
@@ -116,6 +120,7 @@ type DataOpts struct {
 	AllLabelled bool    // every series carries every label (C10-friendly data)
 	MinSeries   int
 	Metrics     []string // metric names to draw from (default m, n, k)
+	Big         bool     // occasionally draw 64..260 series
 	Twins       bool     // add series that differ from another one only in the metric name and take over where it ends
 }
 
@@ -148,6 +153,10 @@ func DrawDataset(t *rapid.T, w Window, o DataOpts) Dataset {
 		ds.Cls = I
 	}
 	n := ir(t, o.MinSeries, maxSeries, "nseries")
+	if o.Big && chance(t, 1, 40, "bigdata") {
+		// many series (several shards with dozens of series each)
+		n = ir(t, 64, 260, "nseries_big")
+	}
 	seen := map[string]bool{}
 	specialPct := 0
 	if o.Specials {
@@ -165,6 +174,9 @@ func DrawDataset(t *rapid.T, w Window, o DataOpts) Dataset {
 	dataHi := w.End + 300000
 	// Smallest interval that keeps series below ~250 samples.
 	minIv := (dataHi - dataLo) / 250
+	if n > 40 {
+		minIv = (dataHi - dataLo) / 40
+	}
 	for i := 0; i < n; i++ {
 		var lbls []core.Label
 		mnames := metricNames
@@ -194,7 +206,12 @@ func DrawDataset(t *rapid.T, w Window, o DataOpts) Dataset {
 			key += l.N + "=" + l.V + ","
 		}
 		if seen[key] {
-			continue
+			if n <= 40 {
+				continue
+			}
+			id := core.Label{N: "id", V: "s" + itoa(i)}
+			lbls = append(lbls, id)
+			key += "id=" + id.V
 		}
 		seen[key] = true
 
@@ -341,4 +358,16 @@ func DrawDataset(t *rapid.T, w Window, o DataOpts) Dataset {
 		}
 	}
 	return ds
+}
+
+func itoa(i int) string {
+	if i == 0 {
+		return "0"
+	}
+	var b []byte
+	for i > 0 {
+		b = append([]byte{byte('0' + i%10)}, b...)
+		i /= 10
+	}
+	return string(b)
 }
